@@ -47,7 +47,9 @@ fn run_replay(job: &Value) {
     let mut phs = placeholder_pool(&e, full_ph);
     if job["cpx_generic"].as_bool().unwrap_or(false) && e == "cpx" {
         // generic complex operands: both parts non-zero, moderate magnitude (C08)
-        phs = [(1.5, -2.0), (0.3, 0.7), (-1.2, 0.4), (2.5, 1.5), (-0.8, -1.1), (0.05, 3.0)].iter().map(|(a, b)| val::Val::C(num_complex::Complex::new(*a, *b))).collect();
+        // ... and nearly real / nearly imaginary ones (the small component must survive), small and large moduli
+        phs = [(1.5, -2.0), (0.3, 0.7), (-1.2, 0.4), (2.5, 1.5), (-0.8, -1.1), (0.05, 3.0),
+               (4.0, 5e-8), (2.0, -3e-7), (3e-8, 2.0), (-5e-8, -0.5), (0.7, 1e-5), (1e-5, 1e-5), (-3e-6, 2e-6), (250.0, -40.0), (1e-3, 0.4), (30.0, 1e-7)].iter().map(|(a, b)| val::Val::C(num_complex::Complex::new(*a, *b))).collect();
     }
     let boundary = job["boundary_pool"].as_bool().unwrap_or(false);
     let max_assign = job["max_assign"].as_u64().unwrap_or(512) as usize;
